@@ -207,7 +207,25 @@ def run(loader, R, tier):
 
             def floor(self, *a):
                 self.R.floor(*a)
+
+            def rule(self, *a, **kw):
+                pass
+
+            def exception(self, *a, **kw):
+                self.R.exception(*a, **kw)
+
+            def undecided_obligation(self, rid, key, why):
+                self.R.undecided_obligation("R16.6", key, why)
+
+            def __getattr__(self, name):
+                return getattr(self.R, name)
         range_check(prog, _Sub(R))
+        # ... and an antisymmetric one: zero only on equality, corresponding
+        # parts compared, a decisive `<` only where inequality of the same
+        # parts is established (C02 R2.7, R2.8, R2.10 under this rule id)
+        from rules.c02 import symmetry_rules
+        from selib import sym as _symc
+        symmetry_rules(prog, _symc.Paths(prog), _Sub(R))
 
     # ------------------------------------------------------------ R16.5
     # A number that prints with a leading '-' must not have Atom precedence:
